@@ -365,6 +365,22 @@ func (k *KS) LpmSet(slot uint32, ents []LpmEnt) (rc int32, keySize uint32) {
 	return
 }
 
+// LpmDel empties slot of lpm_array_map (what deleting the inner map from the array does in the kernel).
+func (k *KS) LpmDel(slot uint32) (rc int32) {
+	k.pre()
+	var b kbuf
+	b.u8(6)
+	b.u32(slot)
+	b.u32(0xffffffff)
+	k.send(&b)
+	k.flush()
+	k.expect(6)
+	rc = int32(k.ru32())
+	k.ru32()
+	k.ackFlush()
+	return
+}
+
 func (k *KS) SetParam(raw []byte) (cSize uint32) {
 	k.pre()
 	var b kbuf
@@ -646,6 +662,17 @@ func (k *KS) QSetParam(raw []byte) {
 	k.q = append(k.q, 7)
 }
 
+// QSetCPU selects the simulated CPU (0..3) the following programs run on: every
+// PERCPU_ARRAY map has one copy per CPU, so scratch left by an earlier program is
+// only seen by programs on the same CPU (as in the kernel). CPU 0 after Reset.
+func (k *KS) QSetCPU(cpu uint32) {
+	var b kbuf
+	b.u8(14)
+	b.u32(cpu)
+	k.send(&b)
+	k.q = append(k.q, 14)
+}
+
 func (k *KS) QSetTime(ns uint64) {
 	var b kbuf
 	b.u8(8)
@@ -700,6 +727,9 @@ func (k *KS) Sync() []QResult {
 			r.Rc = int32(k.ru32())
 		case 8:
 			k.expect(8)
+		case 14:
+			k.expect(14)
+			r.Rc = int32(k.ru32())
 		case 9:
 			k.expect(9)
 			r.Route = int64(k.ru64())
